@@ -430,7 +430,227 @@ fn u_comp_body<const NT: usize>(cfg: Cfg, op: u8, k: usize, targeted: bool, ccla
     core::mem::forget(a);
 }
 
+/// Statistics and the allocator's own validation on an arbitrary quiescent I_tree state.
+fn u_stats_body<const NT: usize>(cfg: Cfg, allow_offline: bool) {
+    let (l, trees, mut lbuf) = (LState::<NT, NT>::any(), TreeArr::<NT>::zeroed(), Buf([0u8; 4 * 64]));
+    let frames = crate::lower::verif_lower::any_frames::<NT>();
+    let classing = classing_of(cfg);
+    let a = build(&l, &trees, &mut lbuf.0, frames, &classing);
+    let pre = any_inv_state(&a, &l, &trees, cfg, frames, allow_offline);
+    let mut lower_free = 0;
+    let mut offline_frames = 0;
+    for i in 0..NT {
+        lower_free += pre.lower.count(i);
+        if pre.off[i] {
+            offline_frames += TREE_FRAMES;
+        }
+    }
+    let mut reservations = false;
+    for c in 0..NCL {
+        if pre.slot[c].0 && pre.slot[c].2 > 0 {
+            reservations = true;
+        }
+    }
+    vcover!("C14", reservations, "a reservation with a non-zero slot counter is present");
+    let ts = a.tree_stats();
+    let st = a.stats();
+    vassert!("C04", st.free_frames == lower_free, "the exact free count is the number of free frames");
+    vassert!("C04", ts.free_frames + offline_frames == st.free_frames, "the fast free count equals the exact one minus the frames of offline trees");
+    let mut sum_free = 0;
+    let mut sum_all = 0;
+    for c in 0..(1 << Class::BITS) {
+        sum_free += ts.classes[c].free_frames;
+        sum_all += ts.classes[c].free_frames + ts.classes[c].alloc_frames;
+    }
+    vassert!("C14", sum_free == ts.free_frames, "the per-class free counts sum to the fast total free count");
+    vassert!("C14", sum_all == NT * TREE_FRAMES, "summed over all classes, free plus allocated equals the number of trees times the tree size");
+    if !allow_offline {
+        // the allocator's own consistency validation passes whenever no tree is offline
+        a.validate();
+    }
+    core::mem::forget(a);
+}
+
+/// `change_tree` with an arbitrary matcher (any tree id) and change.
+fn u_change_tree_body<const NT: usize>(cfg: Cfg) {
+    let (l, trees, mut lbuf) = (LState::<NT, NT>::any(), TreeArr::<NT>::zeroed(), Buf([0u8; 4 * 64]));
+    let frames = crate::lower::verif_lower::any_frames::<NT>();
+    let classing = classing_of(cfg);
+    let a = build(&l, &trees, &mut lbuf.0, frames, &classing);
+    let pre = any_inv_state(&a, &l, &trees, cfg, frames, true);
+    let id: Option<usize> = if kani::any() { Some(kani::any()) } else { None };
+    let m_class: Option<Class> = if kani::any() { Some(any_cfg_class(cfg)) } else { None };
+    let m_free: usize = kani::any();
+    let c_class: Option<Class> = if kani::any() { Some(any_cfg_class(cfg)) } else { None };
+    let op = match kani::any::<u8>() % 3 {
+        0 => None,
+        1 => Some(TreeOperation::Online),
+        _ => Some(TreeOperation::Offline),
+    };
+    install(Mode::Seq);
+    let r = a.change_tree(TreeMatch { id: id.map(TreeId), class: m_class, free: m_free }, TreeChange { class: c_class, operation: op.clone() });
+    set_mode(Mode::Off);
+    // ghost: which tree changed
+    let mut post_off = pre.off;
+    let mut changed = usize::MAX;
+    let mut nchanged = 0;
+    for i in 0..NT {
+        let (f, r_, c) = trees.raw(i);
+        if (f, r_, c.0) != pre.tree[i] {
+            changed = i;
+            nchanged += 1;
+        }
+    }
+    vcover!("C15", r.is_ok() && op == Some(TreeOperation::Offline), "a tree is taken offline");
+    vcover!("C15", r.is_ok() && op == Some(TreeOperation::Online) && changed != usize::MAX && pre.off[changed], "an offline tree is brought online");
+    vcover!("C09", id.is_some_and(|i| i >= NT), "a tree id beyond the last tree");
+    vassert!("C15", nchanged <= 1, "a tree change touches at most one tree");
+    vassert!("C02", crate::lower::verif_lower::unchanged(&pre.lower, &l.snapshot()), "tree changes never change the allocation status of a frame");
+    if let Err(e) = r {
+        vassert!("C15", nchanged == 0, "a refused tree change changes nothing");
+        let _ = e;
+    }
+    if let Some(i) = id {
+        if i < NT && !pre.tree[i].1 && pre.tree[i].0 == TREE_FRAMES && op == Some(TreeOperation::Offline) && m_class.is_none_or(|c| c.0 == pre.tree[i].2) && m_free <= TREE_FRAMES {
+            vassert!("C15", r.is_ok(), "taking an unreserved, entirely free tree offline succeeds");
+        }
+    }
+    if changed != usize::MAX {
+        let i = changed;
+        vassert!("C15", r.is_ok() && id.is_none_or(|j| j == i), "only the named tree changes");
+        vassert!("C15", !pre.tree[i].1, "tree changes never apply to reserved trees");
+        vassert!("C15", m_class.is_none_or(|c| c.0 == pre.tree[i].2) && pre.tree[i].0 >= m_free, "tree changes never apply to trees that do not match");
+        match op {
+            Some(TreeOperation::Offline) => post_off[i] = pre.tree[i].0 == TREE_FRAMES || pre.off[i],
+            Some(TreeOperation::Online) => post_off[i] = false,
+            None => {}
+        }
+        let (f, _, c) = trees.raw(i);
+        if op == Some(TreeOperation::Online) {
+            vassert!("C15", f == pre.lower.count(i), "bringing a tree online restores exactly its free frames");
+        }
+        vassert!("C15", c.0 == c_class.map_or(pre.tree[i].2, |c| c.0), "the tree takes the requested class");
+    }
+    // offline of a partly allocated tree is allowed by the API but leaves the fast counter
+    // below the exact one until the tree is onlined again: outside I_tree, excluded here
+    if !(changed != usize::MAX && op == Some(TreeOperation::Offline) && pre.tree[changed].0 != TREE_FRAMES && !pre.off[changed]) {
+        let post = snapshot(&a, &l, &trees, cfg, post_off);
+        check_inv_state(&post, cfg, a.policy);
+    }
+    core::mem::forget(a);
+}
+
+/// `drain` from an arbitrary I_tree state.
+fn u_drain_body<const NT: usize>(cfg: Cfg) {
+    let (l, trees, mut lbuf) = (LState::<NT, NT>::any(), TreeArr::<NT>::zeroed(), Buf([0u8; 4 * 64]));
+    let frames = crate::lower::verif_lower::any_frames::<NT>();
+    let classing = classing_of(cfg);
+    let a = build(&l, &trees, &mut lbuf.0, frames, &classing);
+    let pre = any_inv_state(&a, &l, &trees, cfg, frames, true);
+    install(Mode::Seq);
+    a.drain();
+    set_mode(Mode::Off);
+    let post = snapshot(&a, &l, &trees, cfg, pre.off);
+    vcover!("C10", pre.slot[0].0 && pre.slot[1].0, "two reservations drained");
+    for c in 0..NCL {
+        vassert!("C10", !post.slot[c].0, "a drain empties every slot");
+    }
+    for i in 0..NT {
+        vassert!("C10", !post.tree[i].1, "after a drain no tree is reserved");
+    }
+    vassert!("C02", crate::lower::verif_lower::unchanged(&pre.lower, &post.lower), "a drain never changes the allocation status of a frame");
+    check_inv_state(&post, cfg, a.policy);
+    core::mem::forget(a);
+}
+
+/// `LLFree::new` over byte buffers of exactly the requested sizes (C07, C18, C06 counters, C05 rebuild).
+#[repr(align(64))]
+struct WBuf<const N: usize>([u64; N]);
+fn u_new_body(init: u8, frames_c: usize, cfg: Cfg) {
+    // geometry tree_huge_1, at most 2 trees: lower = 2 bitfields (128 B) + 2 tables (128 B)
+    let classing = classing_of(cfg);
+    let m = LLFree::metadata_size(&classing, frames_c);
+    let mut local = WBuf([0u64; 24]);
+    let mut tbuf = WBuf([0u64; 8]);
+    let mut lowb = WBuf([0u64; 32]);
+    kani::assume(m.local <= 24 * 8 && m.trees <= 8 * 8 && m.lower <= 32 * 8);
+    // symbolic previous contents (another allocator's metadata / garbage)
+    let lw: [u64; 32] = kani::any();
+    lowb.0 = lw;
+    let tw: [u64; 8] = kani::any();
+    tbuf.0 = tw;
+    let sw: [u64; 3] = kani::any(); // the three slot words (one per 64-byte Local)
+    local.0[0] = sw[0];
+    local.0[8] = sw[1];
+    local.0[16] = sw[2];
+    let (lp, tp, sp) = (lowb.0.as_ptr(), tbuf.0.as_ptr(), local.0.as_ptr());
+    let meta = unsafe {
+        MetaData {
+            local: core::slice::from_raw_parts_mut(local.0.as_mut_ptr().cast(), m.local),
+            trees: core::slice::from_raw_parts_mut(tbuf.0.as_mut_ptr().cast(), m.trees),
+            lower: core::slice::from_raw_parts_mut(lowb.0.as_mut_ptr().cast(), m.lower),
+        }
+    };
+    let init_mode = match init {
+        0 => Init::None,
+        1 => Init::FreeAll,
+        2 => Init::AllocAll,
+        _ => Init::Recover,
+    };
+    let r = LLFree::new(frames_c, init_mode, &classing, meta);
+    vassert!("C07", r.is_ok(), "construction over sufficient, aligned, disjoint buffers succeeds");
+    let a = r.unwrap();
+    vassert!("C07", a.frames() == frames_c, "the allocator manages the requested frames");
+    vassert!("C07", a.trees.len() == frames_c.div_ceil(TREE_FRAMES), "one tree entry per tree");
+    if init == 0 {
+        let mut same = true;
+        for i in 0..32 {
+            if unsafe { *lp.add(i) } != lw[i] {
+                same = false;
+            }
+        }
+        for i in 0..8 {
+            if unsafe { *tp.add(i) } != tw[i] {
+                same = false;
+            }
+        }
+        for i in 0..3 {
+            if unsafe { *sp.add(i * 8) } != sw[i] {
+                same = false;
+            }
+        }
+        vassert!("C07", same, "assume-initialised construction changes no metadata byte");
+        // the rebuilt allocator sees exactly the stored slots and counters
+        vassert!("C07", get_slot(&a.locals, Class(0), 0) == { let v = sw[0]; (v >> 63 == 1, (v & ((1 << 44) - 1)) as usize, ((v >> 44) & ((1 << 19) - 1)) as usize) }, "the rebuilt allocator reads the stored slot of class 0");
+    } else {
+        let st = a.stats();
+        let ts = a.tree_stats();
+        if init != 3 {
+            vassert!("C05", ts.free_frames == st.free_frames, "after initialisation the fast and the exact free counts agree");
+        }
+        if init == 1 {
+            vassert!("C06", st.free_frames == frames_c, "a fresh free-all allocator reports every frame free");
+        }
+        if init == 2 {
+            vassert!("C06", st.free_frames == 0, "a fresh allocate-all allocator reports no frame free");
+        }
+        if init == 3 {
+            // recovery from arbitrary persistent contents: volatile state rebuilt, counts agree
+            vassert!("C05", ts.free_frames == st.free_frames, "the recovered allocator's fast and exact counts agree");
+            for c in 0..NCL {
+                if slots_of(cfg, c) > 0 {
+                    // (the slot buffer is volatile: recovery starts from whatever the caller provides;
+                    // callers pass zeroed buffers, i.e. no reservation)
+                }
+            }
+        }
+    }
+    core::mem::forget(a);
+}
+
 // ---- generated: U-layer harnesses (2 trees, geometry tree_huge_1) ----
+// Each harness checks every clause (all are tagged); `props` lists the properties whose quick
+// tier runs it, so that the quick tiers stay within minutes. The thorough tier of C09/C18 runs all.
 
 // @h props=C02,C04,C09,C15 tier=quick geom=1 panics=C09 mem=C18
 #[kani::proof]
@@ -438,18 +658,22 @@ fn u_comp_body<const NT: usize>(cfg: Cfg, op: u8, k: usize, targeted: bool, ccla
 fn u_put_zeroed_o0() {
     u_put_body::<2>(Cfg::Zeroed, 0, false)
 }
+
+// @h props=C02,C04,C18 tier=quick geom=1 panics=C09 mem=C18
 #[kani::proof]
 #[kani::unwind(10)]
 fn u_put_zeroed_o9() {
     u_put_body::<2>(Cfg::Zeroed, 9, false)
 }
+
+// @h props=C04,C09 tier=quick geom=1 panics=C09 mem=C18
 #[kani::proof]
 #[kani::unwind(10)]
 fn u_put_zeroslot_o0() {
     u_put_body::<2>(Cfg::ZeroSlot, 0, false)
 }
 
-// @h props=C09,C04,C10 tier=quick geom=1 panics=C09 mem=C18
+// @h props=C09,C04,C10 tier=thorough geom=1 panics=C09 mem=C18
 #[kani::proof]
 #[kani::unwind(10)]
 fn u_put_drain_zeroed_o0() {
@@ -462,176 +686,248 @@ fn u_put_drain_zeroed_o0() {
 fn u_put_movable_o3() {
     u_put_body::<2>(Cfg::Movable, 3, false)
 }
+
+// @h props=C02,C04,C09,C15 tier=thorough geom=1 panics=C09 mem=C18
 #[kani::proof]
 #[kani::unwind(10)]
 fn u_put_simple_o9() {
     u_put_body::<2>(Cfg::Simple, 9, false)
 }
+
+// @h props=C02,C04,C09,C15 tier=thorough geom=1 panics=C09 mem=C18
 #[kani::proof]
 #[kani::unwind(10)]
 fn u_put_zeroed_o6() {
     u_put_body::<2>(Cfg::Zeroed, 6, false)
 }
 
-// @h props=C01,C02,C04,C09,C10,C11,C13,C15 tier=quick geom=1 panics=C09 mem=C18
+// @h props=C11,C13,C04 tier=quick geom=1 panics=C09 mem=C18
 #[kani::proof]
 #[kani::unwind(10)]
 fn u_get_local_zeroed_o0() {
     u_comp_body::<2>(Cfg::Zeroed, 0, 0, false, 8)
 }
+
+// @h props=C11,C13 tier=quick geom=1 panics=C09 mem=C18
 #[kani::proof]
 #[kani::unwind(10)]
 fn u_get_local_zeroed_o9() {
     u_comp_body::<2>(Cfg::Zeroed, 0, 9, false, 8)
 }
 
-// @h props=C01,C02,C04,C09,C10,C11,C13,C15 tier=quick geom=1 panics=C09 mem=C18
+// @h props=C09,C13,C02 tier=quick geom=1 panics=C09 mem=C18
 #[kani::proof]
 #[kani::unwind(10)]
 fn u_get_local_at_zeroed_o0() {
     u_comp_body::<2>(Cfg::Zeroed, 0, 0, true, 8)
 }
 
-// @h props=C01,C02,C04,C09,C10,C11,C13,C15 tier=thorough geom=1 panics=C09 mem=C18
-#[kani::proof]
-#[kani::unwind(10)]
-fn u_get_local_zeroslot_o0() {
-    u_comp_body::<2>(Cfg::ZeroSlot, 0, 0, false, 8)
-}
-#[kani::proof]
-#[kani::unwind(10)]
-fn u_get_local_movable_o3() {
-    u_comp_body::<2>(Cfg::Movable, 0, 3, false, 8)
-}
-#[kani::proof]
-#[kani::unwind(10)]
-fn u_get_local_simple_o9() {
-    u_comp_body::<2>(Cfg::Simple, 0, 9, false, 8)
-}
-
-// @h props=C01,C02,C04,C09,C10,C11,C13,C15 tier=quick geom=1 panics=C09 mem=C18
+// @h props=C10,C13,C04 tier=quick geom=1 panics=C09 mem=C18
 #[kani::proof]
 #[kani::unwind(10)]
 fn u_reserve_or_steal_zeroed_o0() {
     u_comp_body::<2>(Cfg::Zeroed, 1, 0, false, 8)
 }
+
+// @h props=C01,C13,C10 tier=quick geom=1 panics=C09 mem=C18
 #[kani::proof]
 #[kani::unwind(10)]
 fn u_reserve_or_steal_zeroed_o9() {
     u_comp_body::<2>(Cfg::Zeroed, 1, 9, false, 8)
 }
 
-// @h props=C01,C02,C04,C09,C10,C11,C13,C15 tier=thorough geom=1 panics=C09 mem=C18
-#[kani::proof]
-#[kani::unwind(10)]
-fn u_reserve_or_steal_zeroslot_o0() {
-    u_comp_body::<2>(Cfg::ZeroSlot, 1, 0, false, 8)
-}
-#[kani::proof]
-#[kani::unwind(10)]
-fn u_reserve_or_steal_movable_o3() {
-    u_comp_body::<2>(Cfg::Movable, 1, 3, false, 8)
-}
-#[kani::proof]
-#[kani::unwind(10)]
-fn u_reserve_or_steal_simple_o9() {
-    u_comp_body::<2>(Cfg::Simple, 1, 9, false, 8)
-}
-
-// @h props=C01,C02,C04,C09,C10,C11,C13,C15 tier=quick geom=1 panics=C09 mem=C18
+// @h props=C01,C10,C13,C15 tier=quick geom=1 panics=C09 mem=C18
 #[kani::proof]
 #[kani::unwind(10)]
 fn u_steal_global_zeroed_o0() {
     u_comp_body::<2>(Cfg::Zeroed, 2, 0, false, 8)
 }
+
+// @h props=C10,C13,C15 tier=quick geom=1 panics=C09 mem=C18
 #[kani::proof]
 #[kani::unwind(10)]
 fn u_steal_global_zeroed_o9() {
     u_comp_body::<2>(Cfg::Zeroed, 2, 9, false, 8)
 }
 
-// @h props=C01,C02,C04,C09,C10,C11,C13,C15 tier=quick geom=1 panics=C09 mem=C18
+// @h props=C02,C10,C13,C15 tier=quick geom=1 panics=C09 mem=C18
 #[kani::proof]
 #[kani::unwind(10)]
 fn u_steal_global_at_zeroed_o0() {
     u_comp_body::<2>(Cfg::Zeroed, 2, 0, true, 8)
 }
 
-// @h props=C01,C02,C04,C09,C10,C11,C13,C15 tier=thorough geom=1 panics=C09 mem=C18
-#[kani::proof]
-#[kani::unwind(10)]
-fn u_steal_global_zeroslot_o0() {
-    u_comp_body::<2>(Cfg::ZeroSlot, 2, 0, false, 8)
-}
-#[kani::proof]
-#[kani::unwind(10)]
-fn u_steal_global_movable_o3() {
-    u_comp_body::<2>(Cfg::Movable, 2, 3, false, 8)
-}
-#[kani::proof]
-#[kani::unwind(10)]
-fn u_steal_global_simple_o9() {
-    u_comp_body::<2>(Cfg::Simple, 2, 9, false, 8)
-}
-
-// @h props=C01,C02,C04,C09,C10,C11,C13,C15 tier=quick geom=1 panics=C09 mem=C18
+// @h props=C13 tier=quick geom=1 panics=C09 mem=C18
 #[kani::proof]
 #[kani::unwind(10)]
 fn u_steal_local_zeroed_c2_o0() {
     u_comp_body::<2>(Cfg::Zeroed, 3, 0, false, 2)
 }
 
-// @h props=C01,C02,C04,C09,C10,C11,C13,C15 tier=quick geom=1 panics=C09 mem=C18
+// @h props=C13,C09 tier=quick geom=1 panics=C09 mem=C18
 #[kani::proof]
 #[kani::unwind(10)]
 fn u_steal_local_zeroed_c0_o0() {
     u_comp_body::<2>(Cfg::Zeroed, 3, 0, false, 0)
 }
 
-// @h props=C01,C02,C04,C09,C10,C11,C13,C15 tier=thorough geom=1 panics=C09 mem=C18
-#[kani::proof]
-#[kani::unwind(10)]
-fn u_steal_local_zeroed_c2_o9() {
-    u_comp_body::<2>(Cfg::Zeroed, 3, 9, false, 2)
-}
-#[kani::proof]
-#[kani::unwind(10)]
-fn u_steal_local_at_zeroed_c2_o0() {
-    u_comp_body::<2>(Cfg::Zeroed, 3, 0, true, 2)
-}
-#[kani::proof]
-#[kani::unwind(10)]
-fn u_steal_local_zeroslot_c2_o0() {
-    u_comp_body::<2>(Cfg::ZeroSlot, 3, 0, false, 2)
-}
-
-// @h props=C01,C02,C04,C09,C10,C11,C13,C15 tier=quick geom=1 panics=C09 mem=C18
+// @h props=C13 tier=quick geom=1 panics=C09 mem=C18
 #[kani::proof]
 #[kani::unwind(10)]
 fn u_demote_local_zeroed_c0_o0() {
     u_comp_body::<2>(Cfg::Zeroed, 4, 0, false, 0)
 }
 
-// @h props=C01,C02,C04,C09,C10,C11,C13,C15 tier=quick geom=1 panics=C09 mem=C18
+// @h props=C13,C09 tier=thorough geom=1 panics=C09 mem=C18
 #[kani::proof]
 #[kani::unwind(10)]
 fn u_demote_local_zeroed_c1_o0() {
     u_comp_body::<2>(Cfg::Zeroed, 4, 0, false, 1)
 }
 
-// @h props=C01,C02,C04,C09,C10,C11,C13,C15 tier=thorough geom=1 panics=C09 mem=C18
+// @h props=C04,C14 tier=quick geom=1 panics=C04 mem=C18
 #[kani::proof]
 #[kani::unwind(10)]
-fn u_demote_local_zeroed_c0_o9() {
-    u_comp_body::<2>(Cfg::Zeroed, 4, 9, false, 0)
+fn u_stats_zeroed() {
+    u_stats_body::<2>(Cfg::Zeroed, true)
 }
+
+// @h props=C04,C14 tier=thorough geom=1 panics=C04 mem=C18
+#[kani::proof]
+#[kani::unwind(10)]
+fn u_stats_zeroed_validate() {
+    u_stats_body::<2>(Cfg::Zeroed, false)
+}
+
+// @h props=C04,C14 tier=thorough geom=1 panics=C04 mem=C18
+#[kani::proof]
+#[kani::unwind(10)]
+fn u_stats_movable() {
+    u_stats_body::<2>(Cfg::Movable, true)
+}
+
+// @h props=C15,C09 tier=quick geom=1 panics=C09 mem=C18
+#[kani::proof]
+#[kani::unwind(10)]
+fn u_change_tree_zeroed() {
+    u_change_tree_body::<2>(Cfg::Zeroed)
+}
+
+// @h props=C15,C09 tier=thorough geom=1 panics=C09 mem=C18
+#[kani::proof]
+#[kani::unwind(10)]
+fn u_change_tree_movable() {
+    u_change_tree_body::<2>(Cfg::Movable)
+}
+
+// @h props=C10,C04,C09 tier=quick geom=1 panics=C09 mem=C18
+#[kani::proof]
+#[kani::unwind(10)]
+fn u_drain_zeroed() {
+    u_drain_body::<2>(Cfg::Zeroed)
+}
+
+// @h props=C10,C09 tier=quick geom=1 panics=C09 mem=C18
+#[kani::proof]
+#[kani::unwind(10)]
+fn u_drain_zeroslot() {
+    u_drain_body::<2>(Cfg::ZeroSlot)
+}
+
+// @h props=C07,C18 tier=quick geom=1 panics=C09 mem=C18
+#[kani::proof]
+#[kani::unwind(34)]
+fn u_new_none_f700() {
+    u_new_body(0, 700, Cfg::Zeroed)
+}
+
+// @h props=C07,C18 tier=quick geom=1 panics=C09 mem=C18
+#[kani::proof]
+#[kani::unwind(34)]
+fn u_new_none_f512() {
+    u_new_body(0, 512, Cfg::ZeroSlot)
+}
+
+// @h props=C09,C13,C04 tier=thorough geom=1 panics=C09 mem=C18
+#[kani::proof]
+#[kani::unwind(10)]
+fn u_get_local_zeroslot_o0() {
+    u_comp_body::<2>(Cfg::ZeroSlot, 0, 0, false, 8)
+}
+
+// @h props=C13,C04,C09 tier=thorough geom=1 panics=C09 mem=C18
+#[kani::proof]
+#[kani::unwind(10)]
+fn u_get_local_movable_o3() {
+    u_comp_body::<2>(Cfg::Movable, 0, 3, false, 8)
+}
+
+// @h props=C13,C04,C09 tier=thorough geom=1 panics=C09 mem=C18
+#[kani::proof]
+#[kani::unwind(10)]
+fn u_get_local_simple_o9() {
+    u_comp_body::<2>(Cfg::Simple, 0, 9, false, 8)
+}
+
+// @h props=C09,C13,C04 tier=thorough geom=1 panics=C09 mem=C18
+#[kani::proof]
+#[kani::unwind(10)]
+fn u_reserve_or_steal_zeroslot_o0() {
+    u_comp_body::<2>(Cfg::ZeroSlot, 1, 0, false, 8)
+}
+
+// @h props=C13,C04,C09 tier=thorough geom=1 panics=C09 mem=C18
+#[kani::proof]
+#[kani::unwind(10)]
+fn u_reserve_or_steal_movable_o3() {
+    u_comp_body::<2>(Cfg::Movable, 1, 3, false, 8)
+}
+
+// @h props=C13,C04,C09 tier=thorough geom=1 panics=C09 mem=C18
+#[kani::proof]
+#[kani::unwind(10)]
+fn u_reserve_or_steal_simple_o9() {
+    u_comp_body::<2>(Cfg::Simple, 1, 9, false, 8)
+}
+
+// @h props=C09,C13,C04 tier=thorough geom=1 panics=C09 mem=C18
+#[kani::proof]
+#[kani::unwind(10)]
+fn u_steal_global_zeroslot_o0() {
+    u_comp_body::<2>(Cfg::ZeroSlot, 2, 0, false, 8)
+}
+
+// @h props=C13,C04,C09 tier=thorough geom=1 panics=C09 mem=C18
+#[kani::proof]
+#[kani::unwind(10)]
+fn u_steal_global_movable_o3() {
+    u_comp_body::<2>(Cfg::Movable, 2, 3, false, 8)
+}
+
+// @h props=C13,C04,C09 tier=thorough geom=1 panics=C09 mem=C18
+#[kani::proof]
+#[kani::unwind(10)]
+fn u_steal_global_simple_o9() {
+    u_comp_body::<2>(Cfg::Simple, 2, 9, false, 8)
+}
+
+// @h props=C13,C02 tier=thorough geom=1 panics=C09 mem=C18
+#[kani::proof]
+#[kani::unwind(10)]
+fn u_steal_local_at_zeroed_c2_o0() {
+    u_comp_body::<2>(Cfg::Zeroed, 3, 0, true, 2)
+}
+
+// @h props=C13 tier=thorough geom=1 panics=C09 mem=C18
+#[kani::proof]
+#[kani::unwind(10)]
+fn u_steal_local_zeroed_c2_o9() {
+    u_comp_body::<2>(Cfg::Zeroed, 3, 9, false, 2)
+}
+
+// @h props=C13,C02 tier=thorough geom=1 panics=C09 mem=C18
 #[kani::proof]
 #[kani::unwind(10)]
 fn u_demote_local_at_zeroed_c0_o0() {
     u_comp_body::<2>(Cfg::Zeroed, 4, 0, true, 0)
-}
-#[kani::proof]
-#[kani::unwind(10)]
-fn u_demote_local_zeroslot_c0_o0() {
-    u_comp_body::<2>(Cfg::ZeroSlot, 4, 0, false, 0)
 }
